@@ -292,6 +292,17 @@ def restart_target(uid, d2='X', *, dk=0, kind='ok'):
         time.sleep(0.4)
     if kind == 'slowbox':
         return [uid, d2, dk, SlowBox(uid, 0.7)]
+    if kind == 'swallow1':
+        # ignores the first termination request only
+        n = 0
+        while True:
+            try:
+                while True:
+                    time.sleep(0.005)
+            except Exception:
+                n += 1
+                if n > 1:
+                    raise
     if kind == 'swallow':
         while True:
             try:
